@@ -47,6 +47,8 @@ const (
 	evSubI     = "subI"     // Submit(manifest I: resources do not match the deployment groups)
 	evSubW     = "subW"     // Submit(manifest W: well-formed, but its hash is no version of the deployment)
 	evUpdate   = "update"   // dtypes.EventDeploymentUpdated{Version: vB}
+	evUpdate2  = "update2"  // a second, distinct update: dtypes.EventDeploymentUpdated{Version: vC} (C10 version protocol)
+	evSubC     = "subC"     // Submit(manifest C: valid for version vC, i.e. only after update2)
 	evClose1   = "close1"   // mtypes.EventLeaseClosed for lease 1 (offered after lease1)
 	evClose2   = "close2"   // mtypes.EventLeaseClosed for lease 2 (offered after lease2)
 	evDClosed  = "dclosed"  // dtypes.EventDeploymentClosed
@@ -54,7 +56,7 @@ const (
 	evQuit     = "quit"     // the environment stops injecting spontaneous events (pending calls are still answered)
 )
 
-var submitKind = map[string]string{evSubA: "A", evSubA2: "A", evSubB: "B", evSubI: "I", evSubW: "W"}
+var submitKind = map[string]string{evSubA: "A", evSubA2: "A", evSubB: "B", evSubC: "C", evSubI: "I", evSubW: "W"}
 
 // Config is one closed harness.
 type Config struct {
@@ -66,6 +68,7 @@ type Config struct {
 	HostErrs        int      // hostname checks the environment may reject (HostAsync only)
 	Watchdog        bool     // ServiceConfig.ManifestTimeout > 0: watchdog per new lease, virtual timer, scripted close-bid broadcast
 	ChainInvalid    bool     // the on-chain version is the hash of manifest I (so that I passes the version check and fails the structural one)
+	Mode            string   // "" = the C20 oracle; "c10v" = the version-protocol oracle of C10 (checkVersion) only
 	PreLease        bool     // lease 1 exists before the service starts (fetchExistingLeases / managePreExistingLease)
 	NoQuit          bool     // the environment always fires the whole menu (default: it may stop after any prefix)
 	Budgets         string   // "p,e;p,e;..." iterative deviation bounding
@@ -149,6 +152,7 @@ func initFixtures() error {
 		"B": mkManifest("b", 1),
 		"I": mkManifest("i", 2), // two instances against a deployment group that pays for one
 		"W": mkManifest("w", 1),
+		"C": mkManifest("c", 1),
 	}
 	fx.ver = map[string][]byte{}
 	fx.kindOf = map[string]string{}
@@ -160,8 +164,8 @@ func initFixtures() error {
 		fx.ver[k] = v
 		fx.kindOf[hex.EncodeToString(v)] = k
 	}
-	if len(fx.kindOf) != 4 {
-		return fmt.Errorf("fixture manifests do not have 4 distinct versions")
+	if len(fx.kindOf) != 5 {
+		return fmt.Errorf("fixture manifests do not have 5 distinct versions")
 	}
 	// the labels must mean what they say, judged by the repository's own validation functions
 	for k, m := range fx.mani {
@@ -256,6 +260,7 @@ type inst struct {
 	fired     map[string]bool
 	quit      bool
 	envLog    []string
+	chain     [][]byte // versions of the update events fired so far, in order (the chain's history after the initial version)
 	fetchErrs int
 	hostErrs  int
 
@@ -542,14 +547,22 @@ type action struct {
 	fire func()
 }
 
+// chainVersion is the version recorded on chain now: the one of the most recently fired update event,
+// else the initial one.
 func (in *inst) chainVersion() []byte {
-	if in.fired[evUpdate] {
-		return fx.ver["B"]
+	if n := len(in.chain); n > 0 {
+		return in.chain[n-1]
 	}
 	if in.cfg.ChainInvalid {
 		return fx.ver["I"]
 	}
 	return fx.ver["A"]
+}
+
+func (in *inst) update(kind string) {
+	v := append([]byte(nil), fx.ver[kind]...)
+	in.chain = append(in.chain, v)
+	in.publish(dtypes.NewEventDeploymentUpdated(fx.did, append([]byte(nil), v...)))
 }
 
 func (in *inst) publish(ev pubsub.Event) {
@@ -578,14 +591,16 @@ func (in *inst) menu() []action {
 				f = func() { in.publish(fx.won[0]) }
 			case evLease2:
 				f = func() { in.publish(fx.won[1]) }
-			case evSubA, evSubA2, evSubB, evSubI, evSubW:
+			case evSubA, evSubA2, evSubB, evSubC, evSubI, evSubW:
 				f = func() {
 					c := in.clients[e]
 					c.started = true
 					vs.Go(func() { in.client(c) })
 				}
 			case evUpdate:
-				f = func() { in.publish(dtypes.NewEventDeploymentUpdated(fx.did, append([]byte(nil), fx.ver["B"]...))) }
+				f = func() { in.update("B") }
+			case evUpdate2:
+				f = func() { in.update("C") }
 			case evClose1:
 				f = func() { in.publish(mtypes.NewEventLeaseClosed(fx.leases[0], sdk.NewInt64Coin("uakt", 10))) }
 			case evClose2:
@@ -837,6 +852,161 @@ func (in *inst) checkG(g string, lg []entry, bad func(string), info map[string]i
 	}
 }
 
+// ---------------------------------------------------------------------------------------------
+// C10, version clause ("the provider accepts a manifest only if its hash equals the version recorded on
+// chain [latest update]"), decided on the real manager. Reference = what the manager goroutine G itself
+// had consumed, in its own program order:
+//
+//	chain history  v0 (initial), then the versions of the update events in the order the environment fired
+//	               them; idx(v) = position in that history
+//	f              the version the deployment query returned to G (the chain's version when it answered)
+//	c(t)           the version of the last update event G had consumed before log position t
+//	known(t)       = { c(t) }            when G has consumed an update and idx(c(t)) >= idx(f)
+//	               = { f }               when G has consumed no update
+//	               = { c(t), f }         when idx(f) > idx(c(t)): the query already returned a newer version
+//	                                     than the last update event consumed - that update is still in flight
+//	                                     to G, and both answers are tolerated
+//
+// A request received at position p, with the query's answer received at position d, can be validated at
+// any position in [max(p,d), q], q = the position of the reply. An ACCEPTANCE (nil reply) of manifest M is
+// legitimate iff hash(M) is in known(t) for some t in that window. Nothing is demanded of rejections
+// (counted only), and nothing at all while the query has not answered (an acceptance then is reported).
+func (in *inst) checkVersion(g string, lg []entry, bad func(string), info map[string]int) {
+	hist := []string{hexv(fx.ver["A"])}
+	if in.cfg.ChainInvalid {
+		hist[0] = hexv(fx.ver["I"])
+	}
+	for _, v := range in.chain {
+		hist = append(hist, hexv(v))
+	}
+	idx := func(v string) int {
+		for i := len(hist) - 1; i >= 0; i-- {
+			if hist[i] == v {
+				return i
+			}
+		}
+		return -1
+	}
+	dataPos, fetched := -1, ""
+	var ups []verAt
+	recvPos := map[*reqRec]int{}
+	known := func(t int) []string {
+		c := ""
+		for _, u := range ups {
+			if u.pos <= t {
+				c = u.ver
+			}
+		}
+		switch {
+		case c == "":
+			return []string{fetched}
+		case idx(fetched) > idx(c):
+			return []string{c, fetched}
+		}
+		return []string{c}
+	}
+	for pos := range lg {
+		e := &lg[pos]
+		switch e.k {
+		case eUpdate:
+			ups = append(ups, verAt{pos, e.ver})
+		case eData:
+			if e.ok && dataPos < 0 {
+				dataPos, fetched = pos, in.respVer[e.data]
+			}
+		case eReq:
+			recvPos[e.req] = pos
+		case eReply:
+			p, ok := recvPos[e.req]
+			if !ok {
+				continue // answered by service.run on behalf of a stopping manager
+			}
+			name := func(h string) string {
+				k := in.kindName(h)
+				if i := idx(h); i >= 0 {
+					return fmt.Sprintf("%s(v%d)", k, i)
+				}
+				return k + "(no version of the deployment)"
+			}
+			if e.err != nil {
+				if errors.Is(e.err, pmanifest.ErrManifestVersion) && dataPos >= 0 {
+					lo := p
+					if dataPos > lo {
+						lo = dataPos
+					}
+					always := true
+					for t := lo; t <= pos; t++ {
+						k := known(t)
+						if !(len(k) == 1 && k[0] == e.req.hash) {
+							always = false
+						}
+					}
+					if always {
+						info["refused-the-version-it-knew-as-current(not demanded)"]++
+					}
+				}
+				continue
+			}
+			if dataPos < 0 || dataPos > pos {
+				bad(sig("version/accepted-before-chain-data", "%s accepted manifest %s of %s before the deployment query had answered", g, e.req.kind, e.req.client))
+				continue
+			}
+			lo := p
+			if dataPos > lo {
+				lo = dataPos
+			}
+			ok = false
+			maxKnown := -1
+			var last []string
+			for t := lo; t <= pos; t++ {
+				last = known(t)
+				for _, v := range last {
+					if v == e.req.hash {
+						ok = true
+					}
+					if i := idx(v); i > maxKnown {
+						maxKnown = i
+					}
+				}
+			}
+			if ok {
+				continue
+			}
+			var ks []string
+			for _, v := range last {
+				ks = append(ks, name(v))
+			}
+			if i := idx(e.req.hash); i < 0 || i > maxKnown {
+				bad(sig("version/accepted-unknown-version", "%s accepted manifest %s of %s, whose hash is %s; between taking the request and accepting it the provider knew the on-chain version as %s (consumed so far: %s)",
+					g, e.req.kind, e.req.client, name(e.req.hash), strings.Join(ks, " or "), in.versionTrail(lg[:pos])))
+			} else {
+				bad(sig("version/accepted-superseded-version", "%s accepted manifest %s of %s, whose hash is the superseded version %s; between taking the request and accepting it the provider knew the on-chain version as %s (consumed so far: %s)",
+					g, e.req.kind, e.req.client, name(e.req.hash), strings.Join(ks, " or "), in.versionTrail(lg[:pos])))
+			}
+		}
+	}
+}
+
+// versionTrail renders what a manager had consumed, for messages.
+func (in *inst) versionTrail(lg []entry) string {
+	var b []string
+	for _, e := range lg {
+		switch e.k {
+		case eUpdate:
+			b = append(b, "update->"+in.kindName(e.ver))
+		case eData:
+			if e.ok {
+				b = append(b, "query-answer="+in.kindName(in.respVer[e.data]))
+			} else {
+				b = append(b, "query-failed")
+			}
+		case eReq:
+			b = append(b, "request("+e.req.client+":"+e.req.kind+")")
+		}
+	}
+	return strings.Join(b, ", ")
+}
+
 func heldStr(lg []entry) string {
 	var b []string
 	for _, e := range lg {
@@ -886,7 +1056,40 @@ func (in *inst) check(r *vs.Result) (string, []string) {
 		}
 	}
 	info := map[string]int{}
+	names := make([]string, 0, len(in.clients))
+	for n := range in.clients {
+		names = append(names, n)
+	}
+	sort.Strings(names)
+	gids := make([]string, 0, len(in.glog))
+	for g := range in.glog {
+		gids = append(gids, g)
+	}
+	sort.Strings(gids)
+	if in.cfg.Mode == "c10v" {
+		for _, g := range gids {
+			in.checkVersion(g, in.glog[g], bad, info)
+		}
+	} else {
+		in.checkC20(r, names, gids, bad, info)
+	}
+	svcDone := vs.Closed(in.svc.Done())
+	if in.cfg.Mode == "" && in.fired[evShutdown] && r.Status == vs.StatusDone && !svcDone {
+		// statistics (never a verdict): does the service finish once shutdown was requested? (D11)
+		info["shutdown-requested-but-service-never-done"]++
+	}
+	for k, v := range info {
+		infoCounters[k] += v
+		// investigation aid: C20_FLAG_INFO=<substring> turns a statistic into a (non-verdict) violation so that a schedule is recorded
+		if debugFlagInfo != "" && strings.Contains(k, debugFlagInfo) {
+			bad(sig("info:"+k, "statistic flagged on request (C20_FLAG_INFO)"))
+		}
+	}
+	return in.obs(r, names, gids, svcDone), viol
+}
 
+// checkC20 is the oracle of C20 (see the comment above checkG).
+func (in *inst) checkC20(r *vs.Result, names, gids []string, bad func(string), info map[string]int) {
 	// --- replies
 	pend := vs.PendingChanOps()
 	for _, rq := range in.reqOrder {
@@ -901,11 +1104,6 @@ func (in *inst) check(r *vs.Result) (string, []string) {
 			bad(sig("reply-twice", "the submission of %s (manifest %s) was answered %d times: %s", rq.client, rq.kind, len(attempts), strings.Join(attempts, ", ")))
 		}
 	}
-	names := make([]string, 0, len(in.clients))
-	for n := range in.clients {
-		names = append(names, n)
-	}
-	sort.Strings(names)
 	for _, n := range names {
 		c := in.clients[n]
 		if !c.started {
@@ -938,29 +1136,13 @@ func (in *inst) check(r *vs.Result) (string, []string) {
 	}
 
 	// --- announcements, per goroutine
-	gids := make([]string, 0, len(in.glog))
-	for g := range in.glog {
-		gids = append(gids, g)
-	}
-	sort.Strings(gids)
 	for _, g := range gids {
 		in.checkG(g, in.glog[g], bad, info)
 	}
+}
 
-	// --- statistics (never a verdict): does the service finish once shutdown was requested? (D11)
-	svcDone := vs.Closed(in.svc.Done())
-	if in.fired[evShutdown] && r.Status == vs.StatusDone && !svcDone {
-		info["shutdown-requested-but-service-never-done"]++
-	}
-	for k, v := range info {
-		infoCounters[k] += v
-		// investigation aid: C20_FLAG_INFO=<substring> turns a statistic into a (non-verdict) violation so that a schedule is recorded
-		if debugFlagInfo != "" && strings.Contains(k, debugFlagInfo) {
-			bad(sig("info:"+k, "statistic flagged on request (C20_FLAG_INFO)"))
-		}
-	}
-
-	// --- canonical observation log
+// obs is the canonical observation log of an execution.
+func (in *inst) obs(r *vs.Result, names, gids []string, svcDone bool) string {
 	var b strings.Builder
 	fmt.Fprintf(&b, "%s|env[%s] svcdone=%v", r.Status, strings.Join(in.envLog, " "), svcDone)
 	for _, n := range names {
@@ -1013,7 +1195,7 @@ func (in *inst) check(r *vs.Result) (string, []string) {
 			fmt.Fprintf(&b, " G%s{%s}", g, strings.Join(s, " "))
 		}
 	}
-	return b.String(), viol
+	return b.String()
 }
 
 func factory(cfg *Config) vs.Factory {
